@@ -725,7 +725,9 @@ static int rtr_handle_cache_response_pdu(struct rtr_socket *rtr_socket, char *pd
 		if (rtr_socket->last_update != 0) {
 			RTR_DBG1("Resetting Socket.");
 
-			rtr_socket->last_update = 0;
+			// Keep last_update: the old records stay in the table until the reload has
+			// succeeded, so they must keep expiring, and a reload that fails must be
+			// retried as an atomic reload again.
 			rtr_socket->is_resetting = true;
 		}
 		rtr_socket->session_id = cr_pdu->session_id;
